@@ -62,12 +62,13 @@ NS = "Xmp.Reset."
 REQUIRED = [NS + n for n in (
     "C06_history_independent", "C06_loaded_view", "C06_reset_complete", "C06_fields_classified", "C06_globals_whitelisted",
     "C06_idempotent_fill", "C06_crc_partial_fill", "C06_pure", "C06_persistent_kept", "C06_leak_if_unreset",
-    "C06_restart_independent", "C06_crc_table_const", "C06_poison_sets")]
+    "C06_restart_independent", "C06_crc_table_const", "C06_poison_sets", "C06_end_smix_created")]
 
 # members the model declares not to be reset / not always live (must mirror Xmp.Reset.Dead / Live; checked by drv output)
 MODEL_DEAD = set()       # filled from the driver (`sets`): Xmp.Reset.Dead
 MODEL_PARTIAL = set()    # Xmp.Reset.PartialField
 MODEL_B = set()          # Xmp.Reset.B: members that must not change while a module is played
+MODEL_PERSISTENT = set()     # Xmp.Reset.Persistent: must be equal by construction of the fresh twin
 MODEL_LOAD_POISON = set()    # Xmp.Reset.LoadResets (non-pointer): re-initialised by every successful load
 MODEL_START_POISON = set()   # Xmp.Reset.StartResets (non-pointer): rewritten by xmp_start_player without being read
 # the FAR tempo/vibrato extras behind m.extra are player-run state (restored by libxmp_reset_module_extras);
@@ -91,6 +92,8 @@ def load_model_sets(ck):
             MODEL_PARTIAL.update(f[1:])
         elif f and f[0] == "setB":
             MODEL_B.update(f[1:])
+        elif f and f[0] == "setPersistent":
+            MODEL_PERSISTENT.update(f[1:])
         elif f and f[0] == "setLoadPoison":
             MODEL_LOAD_POISON.update(f[1:])
         elif f and f[0] == "setStartPoison":
@@ -123,6 +126,9 @@ REGRESSIONS = [
      lambda: "case 0 hist %s rate 44100 fmt 0 smix 0 mem 0 rng 12345\nH load 0 0 0 0 %s\nH start 44100 0 0 0\nH setplayer 4 8 0 0\n"
              "H release 0 0 0 0\nPR 44100 0 0\nR injectfx 0 14 0 0\nR frames 3 0 0 0\nC frames 30 0 0 0\n" % (
          REPO_DATA("ode2ptk.mod"), REPO_DATA("ode2ptk.mod"))),
+    ("reset:smix.chn", "a sound-effect mixer session that was opened and closed still reserves channels for the next player run",
+     lambda: "case 0 hist %s rate 44100 fmt 0 smix 0 mem 0 rng 12345\nH smixstart 3 2 0 0\nH smixend 0 0 0 0\n"
+             "C smixplay 0 60 40 0\nC frames 12 0 0 0\n" % (REPO_DATA("ode2ptk.mod"),)),
     ("reset:s.ticksize", "frame info buffer_size before the first frame is the previous run's tick size",
      lambda: "case 0 hist %s rate 44100 fmt 0 smix 0 mem 0 rng 12345\nH load 0 0 0 0 %s\nH start 44100 0 0 0\nH frames 12 0 0 0\n"
              "C getinfo 0 0 0 0\nC frames 4 0 0 0\n" % (REPO_DATA("ode2ptk.mod"), os.path.join(vlib.REPO, "test", "test.it"))),
@@ -252,7 +258,8 @@ def judge_hist(ck, c, leaves, st, dead_seen, hist_states, played_seen, kind="his
     for d in diffs:
         dead_seen[d[1]] = dead_seen.get(d[1], 0) + 1
     # name the leaking member by a scalar the model says is reset, rather than by a pointee digest that follows from it
-    unexpected.sort(key=lambda d: 0 if d[1] in MODEL_LOAD_POISON or d[1] in MODEL_START_POISON else 1)
+    unexpected.sort(key=lambda d: 0 if d[1] in MODEL_PERSISTENT and d[1] != "rng_state" else
+                    1 if d[1] in MODEL_LOAD_POISON or d[1] in MODEL_START_POISON else 2)
     if fails:
         field = path_of(unexpected[0][1], leaves) if unexpected else None
         if field == "m.extra":
@@ -312,7 +319,7 @@ def check_reset(ck, exe, mods, fields, ncases, maxhist, nshards):
             if any(l.startswith("skip ") for l in c["lines"]) or "noop" in ext or not post:
                 st["op_skipped"] += 1
                 continue
-            if "ret" in ext and ext["ret"][0] != "0":
+            if ("ret" in ext and ext["ret"][0] != "0") or ("smixret" in ext and ext["smixret"][0] != "0"):
                 st["op_skipped"] += 1      # failure paths are not modelled (C04)
                 continue
             m = model.get(cid)
@@ -459,6 +466,18 @@ def synth_modules():
     open(p, "wb").write(bytes(h) + bytes(trk0) + bytes(256) + bytes(trk2) + _sample_bytes())
     out.append(p)
     return out
+
+
+def smix_wav():
+    """a small 8 bit mono PCM WAV for xmp_smix_load_sample (path handed to the harnesses in $C06_SMIX_WAV)"""
+    d = os.path.join(vlib.OUT, "c06-synth")
+    os.makedirs(d, exist_ok=True)
+    data = bytes((200 if (i // 8) % 2 else 56) for i in range(512))
+    hdr = b"RIFF" + struct.pack("<I", 36 + len(data)) + b"WAVEfmt " + struct.pack("<IHHIIHH", 16, 1, 1, 11025, 11025, 1, 8) + \
+        b"data" + struct.pack("<I", len(data))
+    p = os.path.join(d, "smix.wav")
+    open(p, "wb").write(hdr + data)
+    return p
 
 
 def regression_inputs():
@@ -740,6 +759,7 @@ def run(ck):
     ck.proofs(["XmpProps.C06"], required=REQUIRED, drivers=["drv_c06"])
 
     load_model_sets(ck)
+    POISON_ENV["C06_SMIX_WAV"] = smix_wav()
     synth = synth_modules()
     mods = synth + synth + pick_modules(ck, 56 if quick else 220)      # synthetic setters weigh double in random picks
     ck.note("modules", len(mods))
@@ -787,6 +807,7 @@ def run(ck):
 def replay(ck, rp):
     ck.lean_ok = os.path.exists(vlib.lean_driver("drv_c06"))
     load_model_sets(ck)
+    POISON_ENV["C06_SMIX_WAV"] = smix_wav()
     r = rp["replay"]
     if isinstance(r, list):
         print("unproved obligations / correspondences recorded:")
